@@ -245,4 +245,70 @@ theorem runElim_eq (L : ObsLoop) (n : Nat)
       simp only [hh, hnlt, if_false]
       rfl
 
+theorem dce_live_mono (p : List SStmt) (live : List Nat) : ∀ x, x ∈ live → x ∈ (dce p live).2 := by
+  induction p with
+  | nil => intro x h; exact h
+  | cons s r ih =>
+    intro x h
+    cases s with
+    | bin y op a b =>
+      simp only [dce]
+      split <;> simp_all
+    | print a =>
+      simp only [dce]
+      simp_all
+
+theorem eval_agree (e : Operand) (ρ1 ρ2 : Nat → Int) (h : ∀ x, x ∈ e.vars → ρ1 x = ρ2 x) :
+    e.eval ρ1 = e.eval ρ2 := by
+  cases e with
+  | lit n => rfl
+  | var x => exact h x (by simp [Operand.vars])
+
+/-- No division or remainder can disappear without changing the trap behaviour; pure results that
+nobody reads can. -/
+theorem evalTarget_total_of_not_div (op : Op) (a b : Int) (h1 : op ≠ .div) (h2 : op ≠ .mod) :
+    ∃ v, evalTarget op a b = some v := by
+  cases op <;> simp_all [evalTarget]
+
+theorem dce_bin (x : Nat) (op : Op) (a b : Operand) (r : List SStmt) (live : List Nat) :
+    dce (.bin x op a b :: r) live =
+      if x ∉ (dce r live).2 ∧ op ≠ .div ∧ op ≠ .mod then dce r live
+      else (.bin x op a b :: (dce r live).1, a.vars ++ b.vars ++ (dce r live).2) := by
+  simp only [dce]
+
+theorem dce_print (a : Operand) (r : List SStmt) (live : List Nat) :
+    dce (.print a :: r) live = (.print a :: (dce r live).1, a.vars ++ (dce r live).2) := rfl
+
+theorem licm_hoisted_noTrap (p : List SStmt) (variant : List Nat) :
+    ∀ s ∈ (licm p variant).1, noTrapStmt s = true := by
+  induction p generalizing variant with
+  | nil => intro s h; simp [licm] at h
+  | cons st r ih =>
+    intro s h
+    cases st with
+    | print a => simp only [licm] at h; exact ih variant s h
+    | bin x op a b =>
+      simp only [licm] at h
+      split at h
+      · rename_i hc
+        simp only [List.mem_cons] at h
+        rcases h with rfl | h
+        · simp [noTrapStmt, hc.1, hc.2.1]
+        · exact ih variant s h
+      · exact ih (x :: variant) s h
+
+theorem execS_noTrap (p : List SStmt) (h : ∀ s ∈ p, noTrapStmt s = true) (ρ : Nat → Int) :
+    (execS p ρ).1 = [] ∧ (execS p ρ).2.isSome = true := by
+  induction p generalizing ρ with
+  | nil => simp [execS]
+  | cons s r ih =>
+    cases s with
+    | print a => have := h (.print a) (by simp); simp [noTrapStmt] at this
+    | bin x op a b =>
+      have hs := h (.bin x op a b) (by simp)
+      simp only [noTrapStmt, decide_eq_true_eq] at hs
+      obtain ⟨v, hv⟩ := evalTarget_total_of_not_div op (a.eval ρ) (b.eval ρ) hs.1 hs.2
+      simp only [execS, hv]
+      exact ih (fun s hs => h s (by simp [hs])) _
+
 end SamVerif.Opt
